@@ -27,6 +27,18 @@ def gen(rng, tier):
             continue
         words = [[rng.randrange(3) for _ in range(rng.randint(0, 7))] for _ in range(24)]
         cases.append({'r': t, 'ws': words})
+    # "twin" operands: two sub-expressions with the same children under different (or the same) operators, combined by + and . -
+    # rewrite rules that compare operands structurally or by printed form must not confuse them
+    def small():
+        return G.random_re(rng, rng.randint(1, 2), 2)
+    mk = {'+': lambda x, y: ['+', x, y], '.': lambda x, y: ['.', x, y], '*': lambda x, y: ['*', x]}
+    for _ in range(120 if tier == 'quick' else 2000):
+        x, y = small(), small()
+        o1, o2, top = rng.choice('+.*'), rng.choice('+.*'), rng.choice('++.')
+        t = [top, mk[o1](x, y), mk[o2](x, y)] if rng.random() < 0.8 else [top, mk[o1](x, y), mk[o2](y, x)]
+        if rng.random() < 0.3:
+            t = [rng.choice('+.'), t, small()] if rng.random() < 0.5 else ['*', t]
+        cases.append({'r': t, 'ws': G.all_words(2, 4)})
     # symbols named like the constants 0 / 1 or like the epsilon notation: same trees and words, relabelled
     out = []
     for i, c in enumerate(cases):
